@@ -40,6 +40,11 @@ def ops_for(cls):
         ops.append(("merge_faces", lambda o: o.merge_faces()))
     if cls != "ConvexSpheropolygon" or True:
         ops.append(("to_hoomd", lambda o: o.to_hoomd()))
+    # the core of a spheropolytope is public (.polyhedron / .polygon): resizing it is a mutation of the spheropolytope as well
+    if cls == "ConvexSpheropolyhedron":
+        ops.append(("core:scale:volume", lambda o: setattr(o.polyhedron, "volume", 2.0 * float(o.polyhedron.volume))))
+    if cls == "ConvexSpheropolygon":
+        ops.append(("core:scale:area", lambda o: setattr(o.polygon, "area", 2.0 * float(o.polygon.area))))
     bad = dict(Polygon="area", ConvexPolygon="perimeter", ConvexSpheropolygon="radius", Polyhedron="volume",
                ConvexPolyhedron="surface_area", ConvexSpheropolyhedron="radius")[cls]
     ops.append(("bad:" + bad, lambda o, p=bad: setattr(o, p, -1.0)))
